@@ -183,7 +183,7 @@ func acceptingEdgesDeep(fn *ssa.Function, acc acceptFn, depth int) map[edge]bool
 				// a constructed error is non-nil
 				if _, isMk := v.(*ssa.MakeInterface); isMk {
 					known, good = true, false
-				} else if c3, _ := callOf(v); c3 != nil && (strings.HasPrefix(callee(c3), "errors.") || strings.HasPrefix(callee(c3), "fmt.Errorf") || strings.Contains(callee(c3), "pkg/errors")) {
+				} else if constructedNonNil(v, hb, 0) {
 					known, good = true, false
 				} else if nonNilAt(v, hb) {
 					known, good = true, false // "if err != nil { return nil, err }"
@@ -214,6 +214,33 @@ func acceptingEdgesDeep(fn *ssa.Function, acc acceptFn, depth int) map[edge]bool
 		}
 	}
 	return out
+}
+
+// constructedNonNil: v is an error value that cannot be nil here: made by errors.New / fmt.Errorf /
+// pkg/errors.New|Errorf, a concrete value put into the interface, or pkg/errors.Wrap* / WithStack /
+// WithMessage* of such a value or of one that block b lies behind the non-nil test of.  (Wrap of
+// nil is nil: "return errors.Wrap(err, msg)" with an err that was never tested proves nothing.)
+func constructedNonNil(v ssa.Value, b *ssa.BasicBlock, depth int) bool {
+	if depth > 4 {
+		return false
+	}
+	if _, isMk := v.(*ssa.MakeInterface); isMk {
+		return true
+	}
+	c3, _ := callOf(v)
+	if c3 == nil {
+		return nonNilAt(v, b)
+	}
+	switch name := callee(c3); {
+	case name == "errors.New" || name == "fmt.Errorf" || name == "github.com/pkg/errors.New" || name == "github.com/pkg/errors.Errorf":
+		return true
+	case strings.HasPrefix(name, "github.com/pkg/errors.Wrap") || strings.HasPrefix(name, "github.com/pkg/errors.WithMessage") || name == "github.com/pkg/errors.WithStack":
+		if len(c3.Call.Args) == 0 {
+			return false
+		}
+		return constructedNonNil(c3.Call.Args[0], b, depth+1)
+	}
+	return false
 }
 
 // cmp describes a comparison condition with NOT stripped: op applied to x,y; neg tells that the
